@@ -18,7 +18,11 @@ def run(chk, failed):
                 "histories with a refresh cycle through the real sendClusterRequest whose storage request - the cluster-list request, or "
                 "every group-list request - is NOT taken off App.StorageChannel within TimeoutSendStorageRequest's real second, mostly while "
                 "an incident is open and followed by a normal cycle (unchanged code: a timed-out request changes nothing but the cluster "
-                "entries); per step the sorted set of Notify calls (module, cluster, group, status, "
+                "entries); a batch of ~240 histories (parallel processes, every wait under a deadline) in which the first Notify call of "
+                "a result is SLOW (the recording module blocks) while a real group list / refresh cycle arrives from another goroutine and "
+                "is released once the writer is pending (TryRLock fails) - the response and everything after it must still be handled "
+                "(STUCK = violation); ~3 % of the cases are configurations given to the real Configure() (modules of class email / http / "
+                "null, list keys absent / empty / patterns, via viper.Set and via a TOML document), judged by C14/C10; per step the sorted set of Notify calls (module, cluster, group, status, "
                 "canonical event id, start clock, stateGood) and at the end the cluster entries and every incident record (id, start, "
                 "LastNotify per module) are compared with the extracted model; the C13 oracle (computed from the history alone: an "
                 "incident's id/start survive every refresh that still lists the group; exactly one close per send-close module at the "
